@@ -523,20 +523,39 @@ _IVS = [(a, b) for a in range(1, LINE + 1) for b in range(a, LINE + 1)]
 BATCH = 2000
 
 
-def _layout_count():
-    from math import comb
-    m = len(_IVS)
-    return sum(comb(m + k1 - 1, k1) * comb(m + k2 - 1, k2)
-               for k1 in range(MAXIV + 1) for k2 in range(MAXIV + 1 - k1))
+_CWR = {}
 
 
-def _layouts():
-    """all pairs of sorted interval lists with at most MAXIV intervals in total"""
+def _cwr(k):
+    if k not in _CWR:
+        _CWR[k] = list(itertools.combinations_with_replacement(_IVS, k))
+    return _CWR[k]
+
+
+def _blocks():
+    """(k1, k2, first index, size) of the blocks of the enumeration, ordered by (k1, k2)"""
+    out = []
+    lo = 0
     for k1 in range(MAXIV + 1):
         for k2 in range(MAXIV + 1 - k1):
-            for a in itertools.combinations_with_replacement(_IVS, k1):
-                for b in itertools.combinations_with_replacement(_IVS, k2):
-                    yield a, b
+            n = len(_cwr(k1)) * len(_cwr(k2))
+            out.append((k1, k2, lo, n))
+            lo += n
+    return out
+
+
+def _layout_count():
+    b = _blocks()[-1]
+    return b[2] + b[3]
+
+
+def _layout(idx):
+    """the idx-th pair of sorted interval lists with at most MAXIV intervals in total"""
+    for k1, k2, lo, n in _blocks():
+        if idx < lo + n:
+            a, b = divmod(idx - lo, len(_cwr(k2)))
+            return _cwr(k1)[a], _cwr(k2)[b]
+    raise IndexError(idx)
 
 
 def exhaustive_batches():
@@ -553,7 +572,7 @@ def _layout_case(a, b):
 
 def expand_batch(case):
     lo, hi = case["exh"]
-    return [_layout_case(a, b) for a, b in itertools.islice(_layouts(), lo, hi)]
+    return [_layout_case(*_layout(i)) for i in range(lo, hi)]
 
 
 # ---------------------------------------------------------------- corpus and shrinking
